@@ -3,7 +3,7 @@
     Fsx/QidMapProofs.v, Fsx/QidConc.v. *)
 From Coq Require Import NArith String List.
 From P9V Require Import Base.Str gen.ConstGen gen.FsGen19 Fsx.Readdir Fsx.LocalDir Fsx.Paging Fsx.ReaddirProofs
-     Fsx.QidMap Fsx.QidMapProofs Fsx.Qid Fsx.LocalQidStable Fsx.FsGenSpec19.
+     Fsx.QidMap Fsx.QidMapProofs Fsx.Qid Fsx.Mode Fsx.LocalQidStable Fsx.LocalInfo Fsx.FsGenSpec19.
 Import ListNotations.
 Open Scope list_scope.
 Open Scope N_scope.
@@ -98,16 +98,29 @@ Print Assumptions C19_qids.
 (** every history of QIDFor calls, of any length, only extends the tables (so it may stand between the calls above) *)
 Theorem C19_histories_extend : forall h s, extends s (run_history s h).
 Proof. exact run_history_extends. Qed.
+Print Assumptions C19_histories_extend.
 
-(** QIDs, localfs: Readdir, Walk and GetAttr all compute
-    info(stat) = (QIDType (ModeFromOS mode), localToQid (dev, ino)); the path is
-    the same on every call, whatever was looked up in between, from any table state (no bound needed:
-    stability does not depend on the counter, only injectivity — C20 — does) *)
-Theorem C19_qids_local : forall t1 n1 d i r t2 n2 h t3 n3 r' t4 n4,
-  local_to_qid t1 n1 d i = (r, t2, n2) -> lrun_w t2 n2 h = (t3, n3) ->
-  local_to_qid t3 n3 d i = (r', t4, n4) -> r' = r.
-Proof. exact local_to_qid_stable. Qed.
+(** QIDs, localfs.  Readdir's entry, Walk([name]) and GetAttr on the walked File
+    each return, unchanged, Local.info() of the (l)stat of the same path
+    (LocalInfo.v; FsGen19 checks that nothing alters the QID between info() and
+    its use at the three sites):  Type = ModeFromOS(fi.Mode()).QIDType(),
+    Path = localToQid(dev, ino).  While the file's stat result stays the same,
+    the three QIDs are equal — type and path — whatever other files are looked
+    up in between and from any table state (no counter bound needed), and the
+    Dirent's Type is that QID's type. *)
+Theorem C19_qids_local : forall t0 n0 s qe t1 n1 h1 t2 n2 qw t3 n3 h2 t4 n4 qg t5 n5,
+  local_entry_qid t0 n0 s = (qe, t1, n1) -> info_run t1 n1 h1 = (t2, n2) ->
+  local_walk_qid t2 n2 s = (qw, t3, n3) -> info_run t3 n3 h2 = (t4, n4) ->
+  local_getattr_qid t4 n4 s = (qg, t5, n5) ->
+  qw = qe /\ qg = qe /\ q_type qe = info_type (st_mode s).
+Proof. exact local_readdir_walk_getattr_agree. Qed.
 Print Assumptions C19_qids_local.
+
+(** and that type is the one of the file's kind, for all 7 kinds x 4096 permission words *)
+Theorem C19_qids_local_type : forall t p, In t valid_types -> p < 4096 ->
+  info_type (N.lor t p) = qidtype_of_type t /\ ModeFromOS (os_mode_of_stat (N.lor t p)) = N.lor t p.
+Proof. intros t p Ht Hp. destruct (stat_mode_and_type t p Ht Hp) as (A & B & _). split; assumption. Qed.
+Print Assumptions C19_qids_local_type.
 
 (** what the fix 1247c49 repaired (model of the earlier loop: no rewind, [<]) *)
 Theorem C19_local_old_refuted :
@@ -117,10 +130,12 @@ Theorem C19_local_old_refuted :
     (page_loop_st 6 (fun st off => local_readdir_old q st off 2) s0 0%N)
   = Some ["a"; "b"; "c"; "d"; "e"]%string -> False.
 Proof. exact local_old_refuted. Qed.
+Print Assumptions C19_local_old_refuted.
 
 (** the source expressions the models transcribe are the ones in the tree (FsGen) *)
 Theorem C19_source_shape : fs_readdir_shape_ok = true.
 Proof. exact readdir_shape_ok. Qed.
+Print Assumptions C19_source_shape.
 
 (** non-vacuity *)
 Open Scope string_scope.
